@@ -211,6 +211,9 @@ class Type1Tag(Tag):
                 offset += tlv_l + 1 + (1 if tlv_l < 255 else 3)
 
             self._capacity = get_capacity(tag_memory_size, offset, skip_bytes)
+            if ndef is not None and len(ndef) > self._capacity:
+                log.debug("ndef message tlv extends beyond the data area")
+                return None
             self._ndef_tlv_offset = offset
             self._tag_memory = tag_memory
             self._skip_bytes = skip_bytes
